@@ -334,7 +334,7 @@ func c08Late(c *Ctx, p *Prog) {
 			case *ssa.Lookup:
 				if f, _ := loadOfField(x.X); f == cfgKeysF {
 					nLook++
-					c.Check(fn.Parent() != nil, R, fmt.Sprintf("%s:reads configKeys#%d", fnName(fn), nLook), p.pos(x.Pos()), "the excluded file keys are consulted while projecting, inside the closure",
+					c.Check(fn.Parent() != nil || calledOnlyFrom(fn, p.Funcs("benchproc"), func(g *ssa.Function) bool { return g.Parent() != nil }), R, fmt.Sprintf("%s:reads configKeys#%d", fnName(fn), nLook), p.pos(x.Pos()), "the excluded file keys are consulted while projecting, inside the closure",
 						"the excluded file keys are consulted at parse time: keys named by projections parsed later are not excluded from .config, so the result depends on the order of Parse calls")
 				}
 			case *ssa.Call:
@@ -353,7 +353,9 @@ func c08Late(c *Ctx, p *Prog) {
 								}
 							}
 						}
-						c.Check(fn.Parent() != nil && guarded, R, fmt.Sprintf("%s:builds full-name extractor#%d", fnName(fn), nBuild), p.pos(x.Pos()), "the full-name extractor is built on first use, inside the closure, under a nil guard",
+						// at projection time: in a closure, or in a function reached only from closures
+						late := fn.Parent() != nil || calledOnlyFrom(fn, p.Funcs("benchproc"), func(g *ssa.Function) bool { return g.Parent() != nil })
+						c.Check(late && guarded, R, fmt.Sprintf("%s:builds full-name extractor#%d", fnName(fn), nBuild), p.pos(x.Pos()), "the full-name extractor is built on first use, inside the closure, under a nil guard",
 							"the full-name extractor is built at parse time (or rebuilt without a guard): sub-name keys named by projections parsed later are not removed from .fullname, so the result depends on the order of Parse calls")
 					}
 				}
